@@ -1,9 +1,10 @@
 CONSTANTS
   Waiters = {1, 2, 3}
-  Start = 65534
-  Mod = 65536
+  Start = 14
+  Mod = 16
+  Signed = FALSE
   MaxOps = 6
   Defects = {"ArrivalOrder"}
 SPECIFICATION Spec
-INVARIANTS OwnResponseOnce TableIsWaiting NoAliasing
+INVARIANTS OwnResponseOnce TableIsWaiting NoAliasing IdRoundTrip
 CHECK_DEADLOCK FALSE
